@@ -262,7 +262,7 @@ Fixpoint m_registered (e : senv) (m : member) : bool :=
   end.
 
 Definition join_ok (e : senv) (k : jkind) (ms : list member) : bool :=
-  forallb (m_supported k) ms && forallb (m_registered e) ms &&
+  forallb (m_supported k) ms &&
   uses_ok m_sid [] ms && uses_ok m_cs [] ms &&
   match first_cands e NS.empty ms with Some _ => true | None => false end &&
   negb (Nat.eqb (length ms) 0) && Nat.leb (length ms) 8.
@@ -272,6 +272,8 @@ Definition is_lending (k : jkind) : bool :=
 
 Definition env_join (e : senv) (av : aview) (eids : NS.t) (hs : pvec entity) (k : jkind) (ms : list member) : senv * jout :=
   if negb (join_ok e k ms) then (e, JSkipped) else
+  (* fetching a storage that is not registered panics *)
+  if negb (forallb (m_registered e) ms) then (env_fail e, JSkipped) else
   let excl := is_lending k in
   match k with
   | JSeq lim | JLend lim =>
